@@ -89,6 +89,18 @@ def gen_template(rng, i):
             lines.append("%s array %s =\n    %s" % (ty, nm, ", ".join(elems)))
             k = rng.randrange(len(elems))
             lines.append(rng.choice(["Rgate(%s[%d]) | 0", "Dgate(2 * %s[%d], 0.5) | 1", "Kgate(U=%s) | [0, 1]  # %d"]) % (nm, k))
+        elif r < 0.435:
+            # arrays holding parameters that go through element-wise arithmetic before they are passed (-B, A + B, A * C): the
+            # entries of the argument are expressions (-{c}, {c} + 1.5, ...), not bare parameters
+            nA, nB, nC = g.fresh("MA"), g.fresh("MB"), g.fresh("MC")
+            p1, p2 = g.fresh("c"), g.fresh("w")
+            g.params += [p1, p2]
+            lines.append("float array %s =\n    {%s}, 2.5\n    -3, {%s}" % (nB, p1, p1))
+            lines.append("float array %s =\n    1.5, {%s}\n    0.25, 4" % (nA, p2))
+            lines.append("float array %s =\n    2, 0.5\n    -1, 3" % nC)
+            for _ in range(rng.randint(1, 3)):
+                lines.append(rng.choice(["Interferometer(-%s) | [0, 1]" % nB, "Interferometer(%s + %s) | [0, 1]" % (nA, nB), "Ggate(%s * %s) | [0, 1]" % (nA, nC),
+                                         "Kgate(U=%s - %s) | 1" % (nB, nC), "Ggate(2 * %s, V=-%s) | 0" % (nA, nA)]))
         elif r < 0.44:
             # parameter expressions that fold to a constant while parsing: {p}*0, {p}**0, {p}-{p}; with a loop variable
             # that takes the value 0 the folding happens in one iteration only
